@@ -552,7 +552,7 @@ enum cc_stat cc_hashtable_get_values(CC_HashTable *table, CC_Array **out)
     CC_ArrayConf ac;
     cc_array_conf_init(&ac);
 
-    ac.capacity   = table->size;
+    ac.capacity   = table->size > 0 ? table->size : 1;
     ac.mem_alloc  = table->mem_alloc;
     ac.mem_calloc = table->mem_calloc;
     ac.mem_free   = table->mem_free;
@@ -594,7 +594,7 @@ enum cc_stat cc_hashtable_get_keys(CC_HashTable *table, CC_Array **out)
     CC_ArrayConf vc;
     cc_array_conf_init(&vc);
 
-    vc.capacity   = table->size;
+    vc.capacity   = table->size > 0 ? table->size : 1;
     vc.mem_alloc  = table->mem_alloc;
     vc.mem_calloc = table->mem_calloc;
     vc.mem_free   = table->mem_free;
